@@ -151,6 +151,10 @@ type ssaEval struct {
 	// flatEmbedded: a field promoted from a struct embedded by value has the address it would have as
 	// a direct field (s.grp.f is the cell s.f), so that grouping fields into an embedded struct is invisible
 	flatEmbedded bool
+	// arrays: small arrays of basic elements are values (ext_d.go): an allocation (`var iv [4]byte`)
+	// starts as modelled zero cells, as the language defines it — not only the storage of make —,
+	// a load of the whole array yields its elements, a store of such a value sets the elements
+	arrays bool
 }
 
 type strIter struct {
@@ -419,6 +423,10 @@ func (e *ssaEval) instr(fr *frame, ins ssa.Instruction) {
 			}
 			if a.k == svAddr {
 				if v, ok := e.mem[a.s]; ok {
+					set(x, v)
+					return
+				}
+				if v, ok := e.loadArray(x, a); ok {
 					set(x, v)
 					return
 				}
@@ -730,6 +738,9 @@ func (e *ssaEval) instr(fr *frame, ins ssa.Instruction) {
 				e.lists[parts[1]][k] = v
 			}
 			e.effects = append(e.effects, ssaEffect{ins: x, what: "store", args: []sv{v}, addr: a.s})
+			return
+		}
+		if a.k == svAddr && e.storeArray(x, a, v) {
 			return
 		}
 		if a.k == svAddr {
